@@ -129,7 +129,7 @@ let () =
             let i = int_of_string f.(1) in
             if i < !nacks then Some (AAckEvt (n_of_i64 (Int64.of_int i), f.(2) = "1")) else (print_endline "ev noack"; None)
           | "ackcfg" -> st := { !st with a_cfg = nof f.(1) }; None
-          | "role" -> Some (AAct (ARole (f.(1) = "1")))
+          | "role" -> Some (AAct (ARole (f.(1) = "1")))   (* every state other than leader behaves alike *)
           | _ -> failwith ("unknown action " ^ a) in
         (match act with
          | None -> snapshot (!st).a_db
